@@ -401,3 +401,76 @@ func init() {
 			out("%s", s)
 		}, Check: func(r *vrt.Result) string { return "" }})
 }
+
+// Race-tier litmus (Appendix B #30): the same unsynchronised increment, fully serialised by the
+// scheduler, must be reported when nothing orders the two threads and must be silent when a
+// primitive does. Names end in -racy / -clean; `bin/verif litmus` checks the detector's verdict.
+func init() {
+	rl := func(name string, run func()) {
+		vrt.Register(&vrt.Scenario{Name: "LR-" + name, Props: []string{"RACELITMUS"}, Quick: 0, Thorough: 0, Run: run,
+			Check: func(r *vrt.Result) string { return "" }})
+	}
+	rl("plain-racy", func() {
+		x := 0
+		done := make(chan struct{}, 2)
+		var g atomic.Int32 // spawning only; no ordering between the two writers
+		for i := 0; i < 2; i++ {
+			go func() { x++; g.Load(); done <- struct{}{} }()
+		}
+		<-done
+		<-done
+		_ = x
+	})
+	rl("mutex-clean", func() {
+		x := 0
+		var mu sync.Mutex
+		var wg sync.WaitGroup
+		for i := 0; i < 2; i++ {
+			wg.Add(1)
+			go func() { defer wg.Done(); mu.Lock(); x++; mu.Unlock() }()
+		}
+		wg.Wait()
+		_ = x
+	})
+	rl("chan-clean", func() {
+		x := 0
+		c := make(chan struct{})
+		done := make(chan struct{})
+		go func() { x++; c <- struct{}{} }()
+		go func() { <-c; x++; close(done) }()
+		<-done
+		_ = x
+	})
+	rl("rwmutex-clean", func() {
+		x := 0
+		var rw sync.RWMutex
+		var wg sync.WaitGroup
+		wg.Add(2)
+		go func() { defer wg.Done(); rw.Lock(); x++; rw.Unlock() }()
+		go func() { defer wg.Done(); rw.RLock(); _ = x; rw.RUnlock() }()
+		wg.Wait()
+	})
+	rl("cond-racy", func() {
+		// sync.Cond gives no happens-before edge of its own: a Broadcast without the lock does
+		// not order the writer's store before the woken reader's load
+		x := 0
+		var mu sync.Mutex
+		c := sync.NewCond(&mu)
+		ready := make(chan struct{})
+		done := make(chan struct{})
+		go func() {
+			mu.Lock()
+			ready <- struct{}{} // edge reader -> writer only
+			c.Wait()
+			mu.Unlock()
+			_ = x
+			close(done)
+		}()
+		<-ready
+		mu.Lock() // the reader is parked in Wait once this succeeds (edge reader -> writer again)
+		mu.Unlock()
+		x = 1
+		c.Broadcast()
+		<-done
+	})
+}
